@@ -16,7 +16,7 @@ def textCovered : List String :=
 
 theorem text_covered_types :
     textCovered = ["A", "AFSDB", "AVC", "CAA", "CDNSKEY", "CDS", "CNAME", "CSYNC", "DHCID", "DLV", "DNAME", "DNSKEY", "DS", "EID", "EUI48", "EUI64", "GID", "HINFO", "ISDN", "KEY", "KX", "L64", "LP", "MB", "MD", "MF", "MG",
-      "MINFO", "MR", "MX", "NID", "NIMLOC", "NINFO", "NS", "NSAPPTR", "NSEC", "NSEC3PARAM", "OPENPGPKEY", "PTR", "PX", "RESINFO", "RKEY", "RP", "RT", "SMIMEA", "SOA", "SPF", "SRV",
+      "MINFO", "MR", "MX", "NID", "NIMLOC", "NINFO", "NS", "NSAPPTR", "NSEC", "NSEC3PARAM", "NXT", "OPENPGPKEY", "PTR", "PX", "RESINFO", "RKEY", "RP", "RT", "SMIMEA", "SOA", "SPF", "SRV",
       "SSHFP", "TA", "TALINK", "TLSA", "TXT", "UID", "UINFO", "URI", "X25", "ZONEMD"] := by
   decide
 
